@@ -59,6 +59,8 @@ Slack(m) == IF m = "diana_latency" THEN 1 ELSE IF m \in MpicModels THEN 2 ELSE 0
 Cat(o) == IF Len(o) >= 1 /\ o[1] < 0 THEN o[1] ELSE 0
 WellFormedObs(o) == Len(o) >= 1 /\ (o[1] < 0 \/ BigWellFormed(o))
 
+ObsStr(o) == IF Cat(o) = -1 THEN "an exception" ELSE IF Cat(o) = -2 THEN "a non-finite value"
+             ELSE IF Cat(o) = -3 THEN "a negative value" ELSE BigStr(BigPad(o))
 FnStr(fn) == fn.m \o "/" \o fn.l \o "/" \o fn.pat
 Where(fn, q) == FnStr(fn) \o " at " \o ToString(q)
 
@@ -302,8 +304,9 @@ LifeWalk(t, i, p, drift) ==
     ELSE IF e.frame # "same"
     THEN "C16.frame: the evaluation modified the layer description it was given (" \o e.frame \o "):" \o at
     ELSE IF e.res # e.fresh
-    THEN "C16.history: on a description that was used before the function returns " \o ToString(e.res)
-         \o " but on an identical fresh description " \o ToString(e.fresh) \o ":" \o at
+    THEN "C16.history: on a description that was used before the function returns " \o ObsStr(e.res)
+         \o " but on an identical fresh description " \o ObsStr(e.fresh) \o " (unit 1/" \o ToString(ObsUnit(fn.m)[1])
+         \o "e" \o ToString(ObsUnit(fn.m)[2]) \o "):" \o at
     ELSE IF claimed /\ ~decl /\ ~raised
     THEN "C16.reject: unsupported precision / layer kind is not rejected:" \o at
     ELSE IF claimed /\ decl /\ raised
